@@ -47,6 +47,16 @@ func readable(o slip.Object) (out string) {
 	return string(p.Append(nil, o, 0))
 }
 
+// strictReadable is the plain printer with *print-readably*; it panics when the object has no readable syntax.
+func strictReadable(o slip.Object) string {
+	p := *slip.DefaultPrinter()
+	p.Readably = true
+	p.Array = true
+	p.Pretty = false
+	p.RightMargin = 1000000
+	return string(p.Append(nil, o, 0))
+}
+
 // gObj converts an object (value or form) to a Gallina term. kind counts what was met (for the histogram).
 func gObj(o slip.Object) string {
 	switch to := o.(type) {
